@@ -66,7 +66,11 @@ ASSUMPTIONS = [
     "docstring demands; the inputs may be in any order",
     "IntegroPINNCondition: point axis first, integral axis second ((N,1,d), (1,M,d), (N,M,k)), the "
     "shapes under which the arguments broadcast to the (point x integral point) mesh",
-    "PIDeepONetCondition: function axis first (F,N,.), as documented by create_function_batch",
+    "PIDeepONetCondition: function axis first (F,N,.), as documented by create_function_batch; "
+    "with a static input sampler the pre-evaluated (N,k) data-function values are accepted in "
+    "place of (F,N,k) (they broadcast identically). The loss that equals the mean over functions "
+    "and components of the SUM over points gets its own signature (|sum-over-points), any other "
+    "deviation the plain loss-value signature",
     "a sampler tree that raises when sampled on its own (defects of C01/C02) makes the case "
     "inconclusive (event sampler-unusable); DataSampler is never the first factor of a product "
     "(known D12); GridSampler only on single Interval/Parallelogram leaves; no density sampling, "
@@ -75,7 +79,7 @@ ASSUMPTIONS = [
     "values (stands for training) and expects mean(w * error)",
     "PeriodicCondition: constant interval bounds (multiples of 0.25)",
 ]
-BUDGET = {"quick": {"examples": 330, "workers": 4},
+BUDGET = {"quick": {"examples": 400, "workers": 4},
           "thorough": {"examples": 2500, "workers": 14}}
 
 SAMPLER_KINDS = ["PINNCondition", "MeanCondition", "DeepRitzCondition", "SingleModuleCondition",
@@ -112,7 +116,7 @@ def _out_vars(draw):
 
 
 @st.composite
-def _model(draw, k, deeponet=False):
+def _model(draw, k):
     return {"type": draw(st.sampled_from(["analytic", "analytic", "analytic", "real"])),
             "fix": draw(st.booleans()),
             "perm": list(draw(st.permutations(list(range(k)))))}
@@ -177,7 +181,7 @@ def _datafns(draw, coord_names, kmax=3):
 
 @st.composite
 def _param(draw):
-    c = draw(st.sampled_from(["none", "none", "one", "one", "one", "two"]))
+    c = draw(st.sampled_from(["none", "none", "none", "one", "one", "one", "one", "one", "one", "two"]))
     if c == "none":
         return None
     if c == "one":
@@ -396,6 +400,68 @@ def strategy(tier):
     for k in KINDS:
         pool += [k] * KIND_WEIGHTS.get(k, 1)
     return st.sampled_from(pool).flatmap(_case)
+
+
+
+def extra_cases(tier, seed):
+    """One hand-written case per kind with a model input order different from the sampler's,
+    defaults, data functions and a parameter - run on every invocation."""
+    def grid(vs, n, static=False, resample=0):
+        return {"static": static, "resample": resample, "combine": "single", "dep": False,
+                "groups": [{"type": "grid", "vars": vs, "n": n, "dict": False}]}
+
+    def prod(a, b, na, nb, static=False, comb="product", tb="data"):
+        return {"static": static, "resample": 0, "combine": comb, "dep": False,
+                "groups": [{"type": "random", "vars": a, "n": na, "dict": False},
+                           {"type": tb, "vars": b, "n": nb, "dict": True}]}
+    x2, t1, p1 = ["x", 2], ["t", 1], ["p", 1]
+    fn = [{"name": "f1", "args": ["t", "x"], "dim": 2, "extra": True},
+          {"name": "f2", "args": ["x"], "dim": 1, "extra": False}]
+    base = {"m": 2, "weight": 2.0, "iters": 2, "nderiv": 2, "out": [["u", 2], ["v", 1]],
+            "model": {"type": "analytic", "fix": True, "perm": [1, 0]}, "param": [["D", 2]]}
+    cases = []
+    for kind in SAMPLER_KINDS:
+        hpm = kind.startswith("HPM")
+        c = dict(base, kind=kind, vars=[x2, t1], sampler=prod([x2], [t1], 3, 2, static=kind.startswith("Adaptive")),
+                 datafns=fn, sig={"names": (["t", "x", "f2", "D", "f1"] if hpm else ["v", "t", "f2", "u", "D", "x", "f1"]),
+                                  "defaults": ["D", "f1"], "extra": True})
+        if kind in ("SingleModuleCondition", "HPM_EquationLoss_at_Sampler"):
+            c.update(err="abs", red="wsum")
+        if kind.startswith("Adaptive"):
+            c.update(err="p4", red="default")
+        cases.append(c)
+    cases.append(dict(base, kind="PINNCondition", vars=[t1, p1, x2], model={"type": "real", "fix": False, "perm": [2, 0, 1]},
+                      sampler=prod([t1], [p1, x2], 2, 3), datafns=fn[:1],
+                      sig={"names": ["x", "u", "p", "f1", "t"], "defaults": [], "extra": False}))
+    cases.append(dict(base, kind="PeriodicCondition", vars=[t1, p1, ["x", 1]], model={"type": "analytic", "fix": True, "perm": [2, 0, 1]},
+                      sampler=prod([t1], [p1], 2, 2, comb="append"), interval=[-0.5, 1.25],
+                      datafns=[{"name": "f1", "args": ["x", "p"], "dim": 1, "extra": False}],
+                      sig={"names": ["u_right", "t", "f1_left", "x_right", "v_left", "D", "x_left", "f1_right", "u_left"],
+                           "defaults": ["D"], "extra": True}, err="default", red="default"))
+    cases.append(dict(base, kind="IntegroPINNCondition", vars=[x2, t1], sampler=prod([x2], [t1], 2, 2, tb="grid"),
+                      ivars=[t1], isampler=grid([t1], 3), datafns=fn[:1],
+                      sig={"names": ["u_integral", "t", "u", "t_integral", "x", "f1", "v_integral", "D"],
+                           "defaults": [], "extra": False}, err="default", red="default"))
+    cases.append(dict(base, kind="PIDeepONetCondition", vars=[x2, t1], q=2, sampler=prod([x2], [t1], 2, 2, tb="grid"),
+                      fout=[["f", 2], ["g", 1]], fparam=["k", 2], ndisc=3,
+                      fsets=[{"n": 2, "type": "data", "static": False}, {"n": 1, "type": "random", "static": True}],
+                      datafns=fn[:1], sig={"names": ["g", "u", "t", "f", "x", "f1", "v", "D"], "defaults": ["D"], "extra": True}))
+    for full, norm, root in ((False, 3, 3.0), (True, "inf", 1.0), (True, 2, 2.0)):
+        cases.append(dict(base, kind="DataCondition", vars=[x2, t1], ndata=5, batch=2, shuffle=True, norm=norm, root=root,
+                          full=full, param=None, iters=4,
+                          sig={"names": ["v", "t", "u"], "defaults": [], "extra": True} if norm != 2 else None))
+        cases.append(dict(base, kind="HPM_EquationLoss_at_DataPoints", vars=[x2, t1], ndata=6, batch=3, shuffle=False,
+                          norm=norm, root=root, full=full, iters=3, err="default", red="default",
+                          sig={"names": ["t", "D", "x"], "defaults": ["D"], "extra": False}))
+        cases.append(dict(base, kind="DeepONetDataCondition", vars=[x2, t1], q=2, fout=[["f", 2]], ndisc=3, nfun=3, ntrunk=4,
+                          unique=full, bbatch=2, tbatch=2, shuffle=[True, True], norm=norm, root=root, full=full, param=None,
+                          sig={"names": ["u", "x", "v"], "defaults": [], "extra": False} if norm != 2 else None))
+    cases.append({"kind": "ParameterCondition", "m": 2, "weight": 0.5, "iters": 2, "nderiv": 0, "param": [["D", 2]],
+                  "sig": {"names": ["D"], "defaults": ["D"], "extra": True}})
+    for i, c in enumerate(cases):
+        c = dict(c)
+        c["rng"] = (seed * 7919 + 31 * i) % (2 ** 31 - 1)
+        yield c
 
 
 # ====================================================================== harness objects
@@ -1459,7 +1525,9 @@ def _run_pideeponet(spec, ctx):
         for f in fns:
             # a static sampler's data functions are evaluated once on the (N,d) points: the
             # (N,k) result broadcasts against (F,N,.) and is accepted in that shape
-            expected[f.name] = ("data-function", f.ref(cols) if static else f.ref(rep), False)
+            got = spy.calls[-1].get(f.name)
+            pre = static and isinstance(got, torch.Tensor) and got.dim() == 2
+            expected[f.name] = ("data-function", f.ref(cols) if pre else f.ref(rep), False)
         for n, v in pvals.items():
             expected[n] = ("parameter", v, True)
         _check_args(report, spy, -1, expected, kind,
